@@ -14,7 +14,7 @@ PROPS = {
     "C14": {
         "rule": "cases: scalar values from the boundary-biased generator gen.Int(n) (tiny, n-1.., 2^k+-1, bit 255 forced, limb "
                 "patterns, windows, sparse, short, uniform), built either through Decode (canonical domain) or by writing "
-                "Montgomery limbs; plus fixed boundary scalars. Non-trivial: canonical value > 1. Distinct: by hash of the case.",
+                "Montgomery limbs; plus fixed boundary scalars. Non-trivial: canonical value > 1. Distinct: by hash of the case. A quarter of the scalars are used objects (object history), a sixth are results of arithmetic; fixed cases sweep the ~10^4 limb-pattern values in both domains; low limbs include quotient-aimed words.",
         "units": [unit("props", "^TestC14", tier(800000, 8, 900), tier(16000000, 16, 5400))],
         "checks_expected": ["C14/bits"],
     },
@@ -22,14 +22,14 @@ PROPS = {
         "rule": "compare: ordered scalar pairs by relation class (equal, same value in the other domain, adjacent, one canonical limb "
                 "changed, one Montgomery limb changed, random) from the boundary-biased scalar generator; non-trivial = the two values "
                 "differ. cselect: condition words from {0,1,2,3,4,0xff,2^31,2^32,2^63,2^64-1,...} or uniform, operands in both domains, "
-                "nil operands, receiver aliasing an operand; non-trivial = cond not in {0,1}, u != v, no nil. Distinct: by case hash.",
+                "nil operands, receiver aliasing an operand; non-trivial = cond not in {0,1}, u != v, no nil. Distinct: by case hash. Additional relations: several canonical words perturbed (64/32-bit), the same value once plain and once as the result of an arithmetic operation (equal-computed); fixed cases: all ordered pairs of the 256 values with limbs in {0,1,2^63,2^64-1}, in both domains.",
         "units": [unit("props", "^TestC13", tier(800000, 8, 900), tier(16000000, 16, 5400))],
         "checks_expected": ["C13/compare", "C13/cselect"],
     },
     "C06": {
         "rule": "cases (op, s, t, alias, nil, u64): op from {add,sub,mul,square,invert,pow,setuint64,zero,one,minusone,set,copy}; "
                 "operands from the boundary-biased generator in canonical (via Decode) and Montgomery-limb domains; 10% aliased, 10% nil. "
-                "Oracle math/big mod n plus stored-limbs canonicity. Non-trivial = an operand (or the uint64) is > 1. Distinct by case hash.",
+                "Oracle math/big mod n plus stored-limbs canonicity. Non-trivial = an operand (or the uint64) is > 1. Distinct by case hash. mul and square get a larger share; a quarter of the operands are used objects, a sixth are results of arithmetic (provenance); fixed cases sweep all values whose Montgomery limbs come from ten limb patterns (about 10^4) through square and aliased mul/add. Random limbs are uniform (gen.U64).",
         "units": [unit("props", "^TestC06", tier(600000, 8, 900), tier(12000000, 16, 5400, fuzztime=90), fuzz=["FuzzScalarOps"])],
         "checks_expected": ["C06/ops"],
     },
@@ -37,7 +37,7 @@ PROPS = {
         "rule": "decode: byte strings by class (canonical values, n+-d, n+-2^k, n with one limb replaced, high values, wrong lengths "
                 "derived from valid encodings, random 0..80 bytes, random 32 bytes) through Decode/UnmarshalBinary/DecodeHex (hex: "
                 "upper/mixed case, odd length, non-hex rune); non-trivial = 32-byte input within 2^128 of n or differing from n in one "
-                "limb, or a non-empty wrong length, or malformed hex. encode: scalars in both domains; non-trivial = value > 1.",
+                "limb, or a non-empty wrong length, or malformed hex. encode: scalars in both domains; non-trivial = value > 1. Plus n with several 64- or 32-bit words perturbed at once; every decode case is evaluated twice in a row; the caller overwrites the slice returned by Order() before every case.",
         "units": [unit("props", "^TestC07", tier(600000, 8, 900), tier(12000000, 16, 5400, fuzztime=90), fuzz=["FuzzScalarDecode"])],
         "checks_expected": ["C07/decode", "C07/encode"],
     },
@@ -48,7 +48,7 @@ PROPS = {
                 "(0:Y:0)); k from the boundary-biased generator; oracle = affine double-and-add in the model on the value denoted by the "
                 "raw coordinates. Non-trivial = k > 1 and P != O (nil-scalar cases also count). kfold: k in 0..64 against literal k-fold "
                 "sums (model and implementation Add). metamorphic: [a]P+[n-a]P=O, [a]P+[b]P=[a+b]P, [a]([b]P)=[ab]P, [n-1]P=-P; "
-                "non-trivial = a,b > 1 and P != O. Distinct by case hash.",
+                "non-trivial = a,b > 1 and P != O. Distinct by case hash. Scalars come from gen.IntBoth (the boundary pattern may sit in the Montgomery form); in a third of the cases the scalar object was used before and received k through a mutator (object history).",
         "units": [unit("wb", "^TestC01", tier(12000, 8, 900), tier(480000, 16, 5400), overlay="access")],
         "checks_expected": ["C01/reference", "C01/kfold", "C01/metamorphic"],
     },
@@ -58,7 +58,7 @@ PROPS = {
                 "re-represented by 0..3 recipe steps (incl. white-box rescaling and identity forms (0:1:0),(0:-1:0),(0:Y3:0),(0:Y:0)); "
                 "op from {Add, Subtract, Double, Negate}. Oracle: textbook affine law on the values denoted by the raw coordinates; result "
                 "must be a valid projective point, argument value unchanged. Non-trivial = anything but 'independent, both Z=1, neither "
-                "identity'. Distinct by case hash.",
+                "identity'. Distinct by case hash. In a third of the add/sub/double cases one named intermediate of the formula (X1X2, Z1Z2, X1Z2+X2Z1, Y^2, Z^2, ...) is aimed at a boundary value by re-scaling an operand (white-box).",
         "units": [unit("wb", "^TestC02", tier(200000, 8, 900), tier(8000000, 16, 5400), overlay="access")],
         "checks_expected": ["C02/grouplaw"],
     },
@@ -66,7 +66,7 @@ PROPS = {
         "rule": "cases (point spec with 0..3 recipe steps, second recipe for the same base): Encode/EncodeUncompressed/XCoordinate/Hex/"
                 "MarshalBinary compared with SEC1 bytes built by the model from the value the raw coordinates denote; both encodings "
                 "round-trip through Decode (identity included); two representations encode identically. Non-trivial = identity, Z != 1, "
-                "odd y, or any recipe step. Distinct by case hash.",
+                "odd y, or any recipe step. Distinct by case hash. Bases may be decoded into a used receiver object (Reuse) or into the element itself (selfdec); coordinate targets aim raw X/Y/Z (or their Montgomery limbs) at boundary patterns, incl. the word-wise neighbourhood of Montgomery-1; a receiver with Z != 1 also decodes the points whose affine x equals its raw X.",
         "units": [unit("wb", "^TestC04", tier(120000, 8, 900), tier(4800000, 16, 5400), overlay="access")],
         "checks_expected": ["C04/encodings"],
     },
@@ -74,7 +74,7 @@ PROPS = {
         "rule": "ordered pairs by relation class {same element/different recipes, P vs -P (shared x), P vs endo(P) (shared y), endo+neg, "
                 "unrelated, any vs identity, identity vs identity (all identity forms), same pointer}; oracle = model equality of the "
                 "values denoted by the raw coordinates; symmetry, 0/1 range, IsIdentity. Non-trivial = shared coordinate, an identity "
-                "involved, equal elements in different representations, or any recipe step. Distinct by case hash.",
+                "involved, equal elements in different representations, or any recipe step. Distinct by case hash. Additional relation 'line' (distinct points with y_Q-y_P = m(x_Q-x_P), m in {+-1,+-2,+-3}); in a third of the cases one of the four cross products of the comparison is aimed at a boundary value by re-scaling (white-box).",
         "units": [unit("wb", "^TestC05", tier(200000, 8, 900), tier(8000000, 16, 5400), overlay="access")],
         "checks_expected": ["C05/equal"],
     },
@@ -85,7 +85,7 @@ PROPS = {
                 "and hybrid 06/07) x decoder in {Decode, DecodeCompressed, DecodeUncompressed, DecodeCoordinates, DecodeHex (case, odd "
                 "length, non-hex rune), UnmarshalBinary} x prior receiver (point spec with recipe). Oracle: acceptance predicate written "
                 "from the statement; accepted => exact point, rejected => error and unchanged receiver value. Non-trivial = every case "
-                "except random strings of a length no decoder accepts. Distinct by case hash.",
+                "except random strings of a length no decoder accepts. Distinct by case hash. Every case is evaluated twice in a row (verdicts must not depend on the previous input); fixed cases enumerate the word-wise neighbourhood of p as compressed x exhaustively (625 + 6561 strings) and all 256 one-byte strings.",
         "units": [unit("props", "^TestC03", tier(120000, 8, 900), tier(8000000, 16, 5400, fuzztime=120), fuzz=["FuzzElementDecode"])],
         "checks_expected": ["C03/decoders"],
     },
@@ -94,7 +94,7 @@ PROPS = {
                 "{0,1,3,16,55,56,63,64,65,119,120,128,512} or random <= 600; DST lengths {16,255,256,257,1,300,254,1000,...} or random "
                 "1..80 / 200..320, empty and nil DST; slices placed with interior offset and spare capacity. Oracle: independent RFC 9380 "
                 "implementation (sum taken on secp256k1 after the isogeny), determinism, result decodes. Non-trivial = every case with a "
-                "non-empty DST (classes of the model's branch trace are counted). Distinct by case hash.",
+                "non-empty DST (classes of the model's branch trace are counted). Distinct by case hash. Fixed cases: exhaustive grid of message lengths 0..300 x 11 DST lengths (thorough: 0..1100 x 26). sequence: 2..6 calls from re-used caller buffers overwritten in place between calls.",
         "units": [unit("props", "^TestC08", tier(40000, 8, 900), tier(1600000, 16, 5400, fuzztime=120), fuzz=["FuzzHashToCurve"])],
         "checks_expected": ["C08/hash2curve", "C08/sequence"],
     },
@@ -102,7 +102,7 @@ PROPS = {
         "rule": "hash2scalar: (msg, DST, layouts) as for C08 against OS2IP(expand_message_xmd(msg, DST, 48)) mod n of the model. "
                 "widereduce: chosen 48-byte expander outputs (all ones, low/high half zero, high half all ones, multiples of n +-d, "
                 "n..3n +-d, limb patterns, random) fed to internal/scalar.HashToFieldElement; non-trivial = high half non-zero and value "
-                ">= n. expander (white-box): expandXMD(msg, DST, L) for L in {48, 96} against the model. Distinct by case hash.",
+                ">= n. expander (white-box): expandXMD(msg, DST, L) for L in {48, 96} against the model. Distinct by case hash. hash2scalar has the same length grid; sequence as for C08; widereduce also draws high parts equal to floor(2^k/c) +- d for c = 2^256 - n and fold-boundary limbs.",
         "units": [unit("props", "^TestC09", tier(80000, 8, 900), tier(3200000, 16, 5400)),
                   unit("internalpkg", "^TestC09", tier(800000, 8, 900), tier(16000000, 16, 5400), overlay="access")],
         "checks_expected": ["C09/hash2scalar", "C09/sequence", "C09/widereduce", "C09/expander"],
@@ -111,7 +111,7 @@ PROPS = {
         "rule": "sswu: field elements u from the boundary-biased generator in canonical and Montgomery domains, the three exceptional "
                 "values 0 and +-sqrt(-1/Z) as fixed cases and with probability 1/16; oracle = RFC 9380 6.6.2 (non-straight-line) and "
                 "E.1 isogeny in the model; also on-E', sgn0 rule, SSWU(-u) = -SSWU(u), image on secp256k1. isogeny (white-box): "
-                "points of E' built by the model from boundary-biased abscissae, both signs. Non-trivial = all (duplicates removed by hash).",
+                "points of E' built by the model from boundary-biased abscissae, both signs. Non-trivial = all (duplicates removed by hash). A third of the sswu cases solve u so that tv1 = Z u^2 or tv2 = tv1^2 + tv1 takes a boundary pattern; a third of the isogeny cases aim 1/x_den or y_den.",
         "units": [unit("internalpkg", "^TestC11", tier(80000, 8, 900), tier(3200000, 16, 5400), overlay="access")],
         "checks_expected": ["C11/sswu", "C11/isogeny"],
     },
@@ -120,7 +120,7 @@ PROPS = {
                 "invert, sqrtratio, sgn0, iszero, equals, cmove(0|1), set, one, bytes}; operands boundary-biased in canonical and "
                 "Montgomery-limb domains; equals also on pairs differing in exactly one Montgomery limb; sqrtratio with 1/4 forced "
                 "squares. Oracle math/big mod p, canonicity of stored limbs. Non-trivial = an operand > 1. bytes: 32-byte strings around "
-                "p (p+-d, one limb replaced, top of range) for the parser flag/value, 48-byte classes for the wide reduction.",
+                "p (p+-d, one limb replaced, top of range) for the parser flag/value, 48-byte classes for the wide reduction. mul and square get a larger share; exhaustive sweep of the ~10^4 limb-pattern elements through square/neg/iszero/sgn0/bytes; parser fixed cases enumerate the word-wise neighbourhood of p; 48-byte classes include fold-boundary limbs and quotient-by-defect high parts.",
         "units": [unit("internalpkg", "^TestC12", tier(800000, 8, 900), tier(16000000, 16, 5400, fuzztime=90), fuzz=["FuzzFieldOps"])],
         "checks_expected": ["C12/ops", "C12/bytes"],
     },
@@ -132,7 +132,7 @@ PROPS = {
                 "Pow, Decode valid/invalid, HashToScalar, Random with scripted entropy, CSelect with any condition word, nil arguments); "
                 "receiver/argument indices drawn independently (aliasing). After every step every variable is compared with the model "
                 "(Encode, IsIdentity, IsZero, all Equal pairs, LessOrEqual pairs, curve membership). Non-trivial = history with >= 10 "
-                "steps, >= 1 aliased call and >= 1 operation producing Z != 1. Distinct by hash of the whole history.",
+                "steps, >= 1 aliased call and >= 1 operation producing Z != 1. Distinct by hash of the whole history. Action e.repr changes the representation of an element without changing its value (API recipes; re-scaling and coordinate targets in the white-box build).",
         "units": [unit("props", "^TestC10", tier(12000, 8, 900), tier(480000, 16, 5400), overlay="access")],
         "checks_expected": ["C10/history"],
     },
@@ -142,7 +142,7 @@ PROPS = {
                 "slices placed inside canary-filled buffers with interior offset in {0,1,5,32} and spare capacity in {0,1,7,64}, or msg and "
                 "DST adjacent in one backing array; whole backing arrays compared before/after; returned slices overwritten up to cap and "
                 "compared with later results, two results must not overlap; non-receiver operands keep their value. Non-trivial = an input "
-                "slice with cap > len / interior / shared, any slice-returning call, or a pointer argument in a non-default representation.",
+                "slice with cap > len / interior / shared, any slice-returning call, or a pointer argument in a non-default representation. After every hashing case three later calls with short arguments run and the earlier buffers are re-checked (a buffer stays the caller's after the call returned).",
         "units": [unit("props", "^TestC15", tier(120000, 8, 900), tier(4800000, 16, 5400))],
         "checks_expected": ["C15/memory"],
     },
@@ -151,7 +151,7 @@ PROPS = {
                 "from {n+d, n+2^k, 2^256-d, n-d, small, [2^129.., 2^256), uniform} and a 64..96 byte tail; Read calls return chunks from "
                 "{32,1,31,7,16,33,64} bytes (cycled); optional fault (error, EOF, or bytes+error) either strictly before the first usable "
                 "block is complete (must panic) or >= 64 bytes after it (must succeed). Oracle: first complete block with v mod n != 0, "
-                "reduced. Non-trivial = more than one block, a fault, or a first block >= n. Distinct by case hash.",
+                "reduced. Non-trivial = more than one block, a fault, or a first block >= n. Distinct by case hash. The failing source presents one of ten error identities (custom, EOF, ErrUnexpectedEOF, EINTR, EAGAIN, wrapped EINTR, PathError, timeout, ErrClosed, bytes+error).",
         "units": [unit("props", "^TestC18", tier(400000, 8, 900), tier(16000000, 16, 5400))],
         "checks_expected": ["C18/random"],
     },
@@ -161,7 +161,7 @@ PROPS = {
                 "methods taking the shared values as arguments, decoders of shared encodings, constructors, Order, Random), executed by "
                 "2..8 goroutines released together, each in its own generated permutation, on private receivers. Oracles: the Go race "
                 "detector (happens-before; exit code 66 on any race), per-goroutine results equal to the sequential results, shared "
-                "arguments unchanged. Non-trivial = at least two goroutines and one call. Distinct by case hash.",
+                "arguments unchanged. Non-trivial = at least two goroutines and one call. Distinct by case hash. A second shared DST (often oversize) is used by calls with odd index; the concurrent phase runs before the sequential reference, and every process starts with an all-functions workload run concurrently (cold start).",
         "units": [unit("race", "^TestC16", tier(4000, 8, 900), tier(160000, 16, 5400), race=True)],
         "checks_expected": ["C16/concurrent"],
         "assumptions": ["race detection is happens-before based: it reports conflicting accesses that execute, it does not enumerate interleavings"],
@@ -172,7 +172,7 @@ PROPS = {
                 "crypto/tls, net/http) x function in {HashToGroup, EncodeToGroup, HashToScalar} x (msg, DST); the empty subset is a fixed "
                 "case for each function. Each program is built with plain `go build` against the tree under test and executed; oracle: "
                 "exit status 0 and printed hex equals the model value. Non-trivial = the other imports do not link crypto/sha256 "
-                "(decided with `go list -deps`). Distinct by case hash.",
+                "(decided with `go list -deps`). Distinct by case hash. Variants: the program re-registers SHA-256 with an implementation exposing only hash.Hash; the program first makes 3..1000 calls with an empty DST and recovers from the documented panic. A program that does not finish within 20 s is a violation (hang).",
         "units": [unit("prog", "^TestC17", tier(16, 8, 900), tier(160, 16, 5400), env={"VERIF_SHRINKTIME": "2s"})],
         "checks_expected": ["C17/programs"],
         "assumptions": ["'programs' is narrowed to import sets of standard-library packages under one toolchain/GOOS"],
@@ -182,7 +182,7 @@ PROPS = {
                 "Hamming weight, dense (n-1 minus a sparse value), boundary-biased; 0, 2, 3, n-1, 2^255, 2^128, 2^200-1, n/2 as fixed "
                 "cases on G, a Z != 1 point and the identity. Oracle (metamorphic): the sequence of function entries in internal/field "
                 "and internal/scalar recorded during Multiply(k) equals, in length and order, the sequence recorded during Multiply(0) on "
-                "a copy of the same point (about 78 900 entries). Non-trivial = k != 0. Distinct by case hash.",
+                "a copy of the same point (about 78 900 entries). Non-trivial = k != 0. Distinct by case hash. Scalars include the algebraic constants of n (endomorphism eigenvalue) and Montgomery-domain patterns; the trace of a second Multiply by the same scalar value must also be identical (history independence).",
         "units": [unit("trace", "^TestC19", tier(12000, 8, 900), tier(480000, 16, 5400), overlay="trace")],
         "checks_expected": ["C19/schedule"],
         "assumptions": ["granularity is function entry in internal/*: data-dependent branches inside one function, memory access patterns and real timing are not observed"],
